@@ -427,3 +427,83 @@ contract(CW + 'WMSClient._check_resp', props=['C17'],
                       'format': {'pure': True}},
          raises={'SourceError': True},
          trace=[_only_images_pass])
+
+
+# ---- feature info upstream: asked in a supported SRS, with bbox / size / pixel of the (possibly transformed) query ---------------------
+cls(CW + 'WMSInfoClient', fields=dict(request_template='opaque', http_client='opaque', supported_srs='opaque'))
+
+
+def _info_srs_supported(ex, st, post, result):
+    import z3
+    from pyvc.values import eq
+    h = st.heap[post.env['self'].ref]
+    q = post.env['query']
+    tr = [e for i, e in T.evs(st, '_get_transformed_query', 'WMSInfoClient._get_transformed_query')]
+    rt = [e for i, e in T.evs(st, '_retrieve', 'WMSInfoClient._retrieve')]
+    ins = [e for i, e in T.evs(st, 'contains') if len(e.args) == 2 and hasattr(e.args[0], 't') and e.args[0].t.eq(h['supported_srs'].t)]
+    ok = len(rt) == 1 and len(tr) <= 1
+    g = z3.BoolVal(bool(ok))
+    if ok:
+        a = [x for x in rt[0].args if getattr(x, 'ref', None) != post.env['self'].ref]
+        sup = ex.truth(st, h['supported_srs'])
+        if tr:
+            ta = [x for x in tr[0].args if getattr(x, 'ref', None) != post.env['self'].ref]
+            g = z3.And(g, sup, z3.BoolVal(len(ins) == 1 and len(a) == 1 and a[0] is tr[0].result and len(ta) == 1 and ta[0] is q),
+                       z3.Not(ex.truth(st, ins[0].result)) if ins else z3.BoolVal(False))
+            if ins:
+                g = z3.And(g, eq(ins[0].args[1], ex.opaque_field_at(st, ins[0], q, 'srs')))
+        else:
+            g = z3.And(g, z3.BoolVal(len(a) == 1 and a[0] is q), z3.Or(z3.Not(sup), ex.truth(st, ins[0].result) if ins else z3.BoolVal(False)))
+    yield ('info_request_in_supported_srs', g,
+           'the upstream feature-info request is made with the query itself when its SRS is supported (or no list is configured), '
+           'otherwise with the transformed query (_get_transformed_query) - never with an unsupported SRS')
+    cd = [e for i, e in T.evs(st, 'create_featureinfo_doc')]
+    rd = [e for i, e in T.evs(st, 'read')]
+    ok2 = len(cd) == 1 and len(rd) == 1 and bool(rt) and rd[0].recv is not None and rd[0].recv.t.eq(rt[0].result.t) and cd[0].args[0] is rd[0].result \
+        and result is cd[0].result
+    yield ('answer_is_the_upstream_document', z3.BoolVal(bool(ok2)), 'the answer is the document made from the body of that very response')
+
+
+contract(CW + 'WMSInfoClient.get_info', props=['C17', 'C01'],
+         types=dict(query='opaque'), returns='opaque', default_callee='opaque',
+         opaque_fields={'srs': 'opaque'}, stable_fields=['srs'],
+         opaque_spec={'_get_transformed_query': {'pure': True}, '_retrieve': {'raises': ['HTTPClientError']}, 'get': {'pure': True}, 'read': {'pure': True},
+                      'create_featureinfo_doc': {'pure': True}, 'contains': {'returns': 'bool', 'pure': True}},
+         opaque=['_get_transformed_query', '_retrieve'],
+         raises={'HTTPClientError': True},
+         trace=[_info_srs_supported])
+
+
+def _info_query_params(ex, st, post, result):
+    import z3
+    from pyvc.values import eq
+    q = post.env['query']
+    cp = [e for i, e in T.evs(st, 'copy')]
+    sets = {e.name.split(':')[1]: e for e in st.trace if e.name.startswith('setattr:')}
+    ok = len(cp) == 1 and all(k in sets for k in ('bbox', 'size', 'pos', 'srs'))
+    g = z3.BoolVal(bool(ok))
+    if ok:
+        g = z3.And(g, eq(sets['bbox'].args[1], ex.opaque_field_at(st, sets['bbox'], q, 'bbox')),
+                   eq(sets['size'].args[1], ex.opaque_field_at(st, sets['size'], q, 'size')),
+                   eq(sets['pos'].args[1], ex.opaque_field_at(st, sets['pos'], q, 'pos')),
+                   eq(sets['srs'].args[1], ex.opaque_field_at(st, sets['srs'], ex.opaque_field_at(st, sets['srs'], q, 'srs'), 'srs_code')))
+        params = ex.opaque_field_at(st, sets['bbox'], cp[0].result, 'params')
+        g = z3.And(g, z3.BoolVal(all(sets[k].recv is not None and sets[k].recv.t.eq(params.t) for k in ('bbox', 'size', 'pos', 'srs'))))
+    yield ('info_request_carries_the_query', g,
+           'a COPY of the request template gets bbox, size and clicked pixel of the query and the code of its SRS')
+    si = [e for i, e in T.evs(st, 'setitem') if len(e.args) == 3 and hasattr(e.args[1], 'conc') and e.args[1].conc() == 'query_layers']
+    okl = False
+    if len(si) == 1 and hasattr(si[0].args[2], 't'):
+        t = si[0].args[2].t
+        okl = z3.is_app(t) and t.decl().name().startswith('opaque_item_%s_' % abs(hash(('s', 'layers')))) and t.num_args() == 1 \
+            and hasattr(si[0].args[0], 't') and t.arg(0).eq(si[0].args[0].t)
+    yield ('queried_layers_are_the_configured_layers', z3.BoolVal(bool(okl)),
+           "query_layers = the template's own layers (the upstream is asked about the layers of this source only)")
+
+
+contract(CW + 'WMSInfoClient._query_url', props=['C17', 'C01'],
+         types=dict(query='opaque'), returns='opaque', default_callee='opaque',
+         opaque_fields={'bbox': 'opaque', 'size': 'opaque', 'pos': 'opaque', 'srs': 'opaque', 'srs_code': 'opaque', 'params': 'opaque'},
+         stable_fields=['bbox', 'size', 'pos', 'srs', 'srs_code', 'params'],
+         opaque_spec={'copy': {'pure': True}, 'contains': {'returns': 'bool', 'pure': True}},
+         trace=[_info_query_params])
